@@ -1,7 +1,7 @@
 """C18 - LCD animations never block, stay inside their row, finish unless looping, are rate-limited.
 
 Host half : the real Reduino.Displays.LCD object (animate + tick(now)) against coq/Host/LCDAnim.v.
-Device half: generated scripts with lcd.animate(...) before `while True:`, transpiled by the real
+Device half: generated scripts with lcd.animate(...) before `while True:`, inside it and inside functions, transpiled by the real
 parse+emit, compiled against the mock core and run with a scripted millis() per pass, against
 coq/Device/DLCDAnim.v.  Independently of the models a property oracle is evaluated on every real
 trace (no delay, geometry, termination bound, looping never ends, rate limit, one step per due tick), for every
@@ -18,7 +18,7 @@ META = {
     "id": "C18",
     "technique": "Coq proof (induction over tick histories; per-style variants and invariants; finite obligations over tables regenerated from the source) + extracted-model correspondence with the real LCD object and with the emitted C++ animation helpers run under the mock core + trace oracle",
     "level_text": "Theorems C18_* (coq/Props/C18.v) are proved for all texts, widths >= 1, speeds, loop flags and all tick-time sequences about Gallina transcriptions of LCD.animate/LCD.tick and of the four __redu_lcd_start_*/__redu_lcd_tick_* template pairs plus the tick-injection rule, and (C18_tables_complete) about the style/helper tables and helper texts re-read from emitter.py, parser.py and LCD.py on every run; the models are run side by side with the real host object (buffer assignments and every _AnimationState field after each tick) and with the compiled firmware (cell writes and DDRAM dump per loop() pass).",
-    "level_note": "Trusted: Coq kernel, extraction, OCaml driver, the mock LiquidCrystal/LiquidCrystal_I2C (cursor-addressed DDRAM) and its virtual millis(), g++. The theorems are about the models; the correspondence bounds their distance from LCD.py / emitter.py. Tick injection is proved only for animate calls placed before the main loop (an animate inside `while True:` is never ticked: known finding); before the main loop it is proved for call sites at any depth inside if/elif/else, while, for and try/except bodies (Device/DLCDInject.v: the parser's name collection and the emitter's registration walk as two recursive walks over statement trees, C18_nested_*).",
+    "level_note": "Trusted: Coq kernel, extraction, OCaml driver, the mock LiquidCrystal/LiquidCrystal_I2C (cursor-addressed DDRAM) and its virtual millis(), g++. The theorems are about the models; the correspondence bounds their distance from LCD.py / emitter.py. Tick injection is proved without a guard on the place of the call site (C18_tick_injected, C18_loop_site_ticked, C18_function_site_ticked): before the main loop, inside `while True:` and inside function bodies, at any depth inside if/elif/else, while, for and try/except bodies (Device/DLCDInject.v: the parser's name collection and the emitter's registration pass as two recursive walks over statement trees, C18_nested_*); the two former refutations (animate inside `while True:` never ticked; animate inside a def undeclared) were repaired in Reduino and are kept as kind=fixed entries whose witnesses are replayed first on every run (a witness that fails again is a VIOLATION).",
     "design_ref": "DESIGN.md section 4 C18 (and C05 for tick injection)",
 }
 
@@ -506,7 +506,9 @@ BUSY_PRE = ["k = 0"]
 BUSY_LOOP = ["k = k + 1", "if k > 3:", "    k = 0", "for q in range(2):", "    k = k + 0"]
 
 
-WRAPS = [None, "if", "else", "elif", "for", "while", "try", "nested"]
+WRAPS = [None, "if", "else", "elif", "for", "while", "try", "nested", "def", "mainloop", "mainloop-nested", "def-in-loop"]
+# placements whose call sites run in the FIRST loop() pass (after that pass's tick calls) instead of in setup()
+LOOP_WRAPS = ("mainloop", "mainloop-nested", "def-in-loop")
 
 
 def wrap_lines(calls, mode, uid):
@@ -530,7 +532,31 @@ def wrap_lines(calls, mode, uid):
         return ["try:"] + ind(calls) + ["except:", "    one = 1"]
     if mode == "nested":
         return ["if one == 1:", "    for q%d in range(one):" % uid, "        try:"] + ind(calls, 3) + ["        except:", "            one = 1"]
+    if mode == "def":
+        # the call sites inside a function that setup() calls once
+        return ["def go%d():" % uid] + ind(calls) + ["go%d()" % uid]
+    if mode == "def-in-loop":
+        # the function is defined here; the main loop calls it in its first pass (see loop_wrap_lines)
+        return ["def go%d():" % uid] + ind(calls)
+    if mode in LOOP_WRAPS:
+        return []
     raise ValueError(mode)
+
+
+def loop_wrap_lines(calls, mode, uid):
+    """-> (lines before the main loop, lines inside it) for the placements of LOOP_WRAPS: the call sites sit inside
+    `while True:` (or in a function called from there) under a guard that lets them run in the first pass only"""
+    ind = lambda ls, n=1: ["    " * n + x for x in ls]
+    pre = ["st%d = 0" % uid]
+    if mode == "mainloop":
+        body = calls
+    elif mode == "mainloop-nested":
+        body = ["for q%d in range(one):" % uid, "    try:"] + ind(calls, 2) + ["    except:", "        one = 1"]
+    elif mode == "def-in-loop":
+        body = ["go%d()" % uid]
+    else:
+        raise ValueError(mode)
+    return pre, ["if st%d == 0:" % uid] + ind(body) + ["    st%d = 1" % uid]
 
 
 def handler_lines(name, hanims, uid):
@@ -563,6 +589,7 @@ def device_script(lcds, loop_lines=None, runtime_speed=False, pre_lines=None):
     if any(d.get("via_vars") for d in lcds):
         L += ["yes = one == 1", "no = one == 0"]
     j = 0
+    in_loop = []
     for uid, d in enumerate(lcds):
         calls = []
         for a in d["anims"]:
@@ -576,12 +603,25 @@ def device_script(lcds, loop_lines=None, runtime_speed=False, pre_lines=None):
                 calls.append(animate_call(d["name"], a, j % 4))
             j += 1
         L += wrap_lines(calls, d.get("wrap"), uid)
+        if d.get("wrap") in LOOP_WRAPS and calls:
+            pre, inside = loop_wrap_lines(calls, d["wrap"], uid)
+            L += pre
+            in_loop += inside
         if d.get("handler_anims"):
             L += handler_lines(d["name"], d["handler_anims"], uid)
     L += list(pre_lines or [])
     L.append("while True:")
-    L += ["    " + x for x in (loop_lines or ["pass"])]
+    L += ["    " + x for x in (in_loop + list(loop_lines or [])) or ["pass"]]
     return "\n".join(L) + "\n"
+
+
+def effective_phases(d, nows, setup, passes):
+    """A display whose call sites sit in the main loop (LOOP_WRAPS) starts its animations in the first pass, after that
+    pass's (idle) tick calls: for it the first pass plays the part of setup() and the tick history begins with the
+    second pass.  -> (nows, setup phase, passes) as the display model and the oracle see them"""
+    if d.get("wrap") in LOOP_WRAPS and d["anims"]:
+        return list(nows[1:]), passes[0], passes[1:]
+    return list(nows), setup, passes
 
 
 LCD_GLOBAL_RE = re.compile(r"^\s*LiquidCrystal(?:_I2C)?\s+__redu_lcd_(\w+)\s*\(", re.M)
@@ -594,15 +634,15 @@ TICK_TOP_RE = re.compile(r"^  __redu_lcd_tick_(\w+)\(\s*__redu_lcd_anim_(\w+?)_(
 
 def injection_problems(cpp):
     """the clause 'the transpiler guarantees it is advanced once per loop() pass without any delay call', evaluated on
-    the emitted text for a script inside the guard (every lcd.animate call site before the main loop, none in a def):
-    every state variable started in setup() - wherever the start call sits: top level, a branch, a loop body, a try
-    body, an except handler - is a declared global and has exactly one tick call of its own style at the top level
-    of loop(); loop() contains no delay call.  -> [(what, expected, observed)]"""
+    the emitted text: every state variable that a start call names - wherever the call sits: setup(), loop(), the body
+    of a user function; top level, a branch, a loop body, a try body, an except handler - is a declared global and has
+    exactly one tick call of its own style at the top level of loop(); every declared state variable has such a tick;
+    loop() contains no delay call.  -> [(what, expected, observed)]"""
     out = []
     i_setup, i_loop = cpp.find("void setup()"), cpp.find("void loop()")
     if i_setup < 0 or i_loop < 0:
         return [("emitted sketch has no setup()/loop()", "both", [i_setup, i_loop])]
-    setup_txt, loop_txt = cpp[i_setup:i_loop], cpp[i_loop:]
+    loop_txt = cpp[i_loop:]
     end = loop_txt.find("\n}\n")
     if end >= 0:
         loop_txt = loop_txt[:end + 3]
@@ -610,20 +650,27 @@ def injection_problems(cpp):
     top = {}
     for (st, n, k) in TICK_TOP_RE.findall(loop_txt):
         top.setdefault((n, k), []).append(st)
-    seen = set()
-    for (st, n, k) in START_RE.findall(setup_txt):
-        if (n, k) in seen:
-            continue
-        seen.add((n, k))
+    # the start calls with the function they sit in (helper templates take `state`, never a __redu_lcd_anim_ variable)
+    where, seen = "", {}
+    for ln in cpp.splitlines():
+        m = re.match(r"^(?:\w[\w:<>\*&]*\s+)+(\w+)\s*\([^;]*\)\s*\{\s*$", ln)
+        if m and not ln.startswith(" "):
+            where = m.group(1) + "()"
+        for (st, n, k) in START_RE.findall(ln):
+            seen.setdefault((n, k), (st, where, ln.strip()))
+    for (n, k), (st, fn, line) in seen.items():
         var = f"__redu_lcd_anim_{n}_{k}"
         if (n, k) not in declared:
-            out.append((f"animation state {var} is started in setup() but never declared", "a global declaration", "none"))
+            out.append((f"animation state {var} is started in {fn} but never declared", "a global declaration", "none"))
         got = top.get((n, k), [])
         if got != [st]:
-            line = next((ln.strip() for ln in setup_txt.splitlines() if var + "," in ln), "")
-            out.append((f"loop() does not advance the animation {var} (started in setup() by {line[:70]}...) exactly once per pass",
+            out.append((f"loop() does not advance the animation {var} (started in {fn} by {line[:70]}...) exactly once per pass",
                         [f"__redu_lcd_tick_{st}({var}, ...) once at the top level of loop()"],
                         [f"__redu_lcd_tick_{g}({var}, ...)" for g in got] or "no tick call for it in loop()"))
+    for (n, k) in sorted(declared):
+        if (n, k) not in seen and len(top.get((n, k), [])) != 1:
+            out.append((f"declared animation state __redu_lcd_anim_{n}_{k} is not ticked exactly once at the top level of loop()", "one tick call",
+                        top.get((n, k), [])))
     if re.search(r"\bdelay(?:Microseconds)?\s*\(", loop_txt):
         out.append(("loop() of a script that never sleeps contains a delay call", "no delay", "delay(...) in loop()"))
     return out
@@ -917,7 +964,7 @@ def gen_device_groups(ctx):
                               base_speed if rt else rng.choice([0, unit, unit, 1, 3, 100, -3]), rng.random() < 0.5])
             lcds.append({"name": f"m{q:02d}", "cols": cols, "rows": rows, "i2c": rng.random() < 0.5, "anims": anims})
             if not rt:
-                lcds[-1]["wrap"] = WRAPS[(j + q) % len(WRAPS)]
+                lcds[-1]["wrap"] = WRAPS[(j + q + (8 if (j // 2 + q) % 2 else 0)) % len(WRAPS)]
             if q == 5 and not rt:
                 # a display whose ONLY animations sit in except handlers (they never start on the device: its rows stay
                 # blank; the tick calls must be there all the same), and one (q == 4) that has both kinds of call site
@@ -941,7 +988,7 @@ def run_device(ctx, stats):
     jobs, live = [], []
     for s, src, t in zip(sketches, srcs, tr):
         if not t["ok"]:
-            ctx.fail("transpiler rejected a script with lcd.animate before the main loop", {"script": src}, "C++", t, key="dev-transpile")
+            ctx.fail("transpiler rejected a script with lcd.animate call sites", {"script": src}, "C++", t, key="dev-transpile")
             continue
         incs = [s["nows"][0]] + [b - a for a, b in zip(s["nows"], s["nows"][1:])]
         inp = "clock0 0\npass " + " ".join(str(x) for x in incs) + "\n"
@@ -965,7 +1012,7 @@ def run_device(ctx, stats):
         pre, setup_ev, loops = fw.split_phases(o["events"])
         setup = parse_phase(setup_ev)
         passes = [parse_phase(p) for p in loops]
-        parsed.append((ids, setup, passes))
+        parsed.append((ids, setup, passes, s["nows"]))
         stats["dev_events"] = stats.get("dev_events", 0) + len(o["events"])
         # no delay anywhere: the scripts contain no sleep, so any D/DU event comes from the animation runtime
         for ph, label in [(setup, "setup()")] + [(p, f"loop() pass {k}") for k, p in enumerate(passes)]:
@@ -980,14 +1027,18 @@ def run_device(ctx, stats):
             if d["name"] not in ids:
                 ctx.disagree("device: LCD object not found among the emitted globals", {"script": src}, d["name"], order)
                 continue
-            case = {"lcd": d, "nows": s["nows"], "tag": s["tag"], "script_head": src.splitlines()[4:6],
+            enows, _, _ = effective_phases(d, s["nows"], setup, passes)
+            case = {"lcd": d, "nows": enows, "tag": s["tag"], "script_head": src.splitlines()[4:6],
                     "runtime_speed": s["runtime_speed"], "busy": bool(s.get("busy"))}
-            model_cases.append(device_model_case(d, s["nows"]))
+            if len(enows) != len(s["nows"]):
+                case["first_pass_at"] = s["nows"][0]       # the pass in which the main-loop call sites run
+            model_cases.append(device_model_case(d, enows))
             index.append((case, len(parsed) - 1))
     model = ctx.model(model_cases) if (ctx.exe and model_cases) else [None] * len(model_cases)
     nontrivial = set()
     for (case, pi), m in zip(index, model):
-        ids, setup, passes = parsed[pi]
+        ids, setup, passes, full_nows = parsed[pi]
+        _, setup, passes = effective_phases(case["lcd"], full_nows, setup, passes)
         lid = ids[case["lcd"]["name"]]
         if m is not None:
             device_compare(ctx, case, m, setup, passes, lid)
@@ -1017,9 +1068,11 @@ def run_device(ctx, stats):
 # tick injection: emitted loop() head vs the emission model; known finding replay
 # --------------------------------------------------------------------------------------------
 
-def injection_script(setup_sites, loop_sites, names, mode="plain"):
+def injection_script(setup_sites, loop_sites, names, mode="plain", fun_sites=()):
     """mode: plain | noloop (script without `while True:`) | if (setup sites alternate between the two
-    branches of an if/else) | for (setup sites inside a counted loop) - all before the main loop"""
+    branches of an if/else) | for (setup sites inside a counted loop); loop_sites sit inside `while True:` under a
+    guard that runs once; fun_sites: one function per entry, [(name, style), ...] its call sites - the functions are
+    defined before the main loop and called from setup (even index) or from the main loop (odd index)"""
     L = ["from Reduino import target", "from Reduino.Displays import LCD", 'target("/dev/ttyUSB0")']
     for n in names:
         L.append(f"{n} = LCD(rs=12, en=11, d4=5, d5=4, d6=3, d7=2, cols=8, rows=2)")
@@ -1037,13 +1090,20 @@ def injection_script(setup_sites, loop_sites, names, mode="plain"):
         L += ["    " + c for c in calls]
     else:
         L += calls
+    for i, sites in enumerate(fun_sites):
+        L.append(f"def fn{i}():")
+        L += [f'    {n}.animate("{st}", 1, "FN{i}", speed_ms=0, loop=True)' for (n, st) in sites] or ["    pass"]
+        if i % 2 == 0:
+            L.append(f"fn{i}()")
     if mode == "noloop":
         return "\n".join(L) + "\n"
     L.append("while True:")
-    if loop_sites:
+    in_loop_calls = [f"fn{i}()" for i in range(len(fun_sites)) if i % 2 == 1]
+    if loop_sites or in_loop_calls:
         L.append("    if started == 0:")
         for (n, st) in loop_sites:
             L.append(f'        {n}.animate("{st}", 1, "WORLD", speed_ms=0, loop=True)')
+        L += ["        " + c for c in in_loop_calls]
         L.append("        started = 1")
     else:
         L.append("    pass")
@@ -1053,41 +1113,49 @@ def injection_script(setup_sites, loop_sites, names, mode="plain"):
 def run_injection(ctx, stats):
     rng = ctx.rng
     names = ["pa", "pb", "pc"]
-    shapes = [([("pa", "scroll")], [], "plain"), ([("pb", "blink"), ("pa", "bounce"), ("pb", "scroll")], [], "plain"),
-              ([("pc", "typewriter"), ("pa", "scroll"), ("pa", "blink"), ("pb", "bounce")], [], "plain"),
-              ([], [("pa", "scroll")], "plain"), ([("pa", "blink")], [("pa", "scroll")], "plain"),
-              ([("pb", "scroll")], [("pa", "bounce"), ("pb", "blink")], "plain"),
-              ([("pa", "scroll"), ("pb", "typewriter")], [], "noloop"),
-              ([("pa", "scroll"), ("pa", "blink"), ("pb", "bounce")], [], "if"),
-              ([("pc", "bounce"), ("pa", "typewriter")], [], "for")]
-    for _ in range(12 if ctx.tier == "thorough" else 6):
+    # (sites before the main loop, sites inside it, mode, sites per function)
+    shapes = [([("pa", "scroll")], [], "plain", []), ([("pb", "blink"), ("pa", "bounce"), ("pb", "scroll")], [], "plain", []),
+              ([("pc", "typewriter"), ("pa", "scroll"), ("pa", "blink"), ("pb", "bounce")], [], "plain", []),
+              ([], [("pa", "scroll")], "plain", []), ([("pa", "blink")], [("pa", "scroll")], "plain", []),
+              ([("pb", "scroll")], [("pa", "bounce"), ("pb", "blink")], "plain", []),
+              ([("pa", "scroll"), ("pb", "typewriter")], [], "noloop", []),
+              ([("pa", "scroll"), ("pa", "blink"), ("pb", "bounce")], [], "if", []),
+              ([("pc", "bounce"), ("pa", "typewriter")], [], "for", []),
+              ([], [], "plain", [[("pa", "scroll")]]), ([], [], "plain", [[], [("pa", "blink")]]),
+              ([("pa", "blink")], [("pa", "scroll")], "plain", [[("pa", "bounce")], [("pb", "typewriter"), ("pa", "scroll")]]),
+              ([("pb", "scroll")], [], "noloop", [[("pb", "blink"), ("pc", "bounce")]]),
+              ([], [("pc", "blink")], "plain", [[("pc", "scroll")], [("pc", "scroll")], [("pa", "blink")]])]
+    for _ in range(16 if ctx.tier == "thorough" else 8):
         ss = [(rng.choice(names), rng.choice(STYLES)) for _ in range(rng.randint(0, 4))]
         ls = [(rng.choice(names), rng.choice(STYLES)) for _ in range(rng.randint(0, 2))] if rng.random() < 0.5 else []
+        fs = [[(rng.choice(names), rng.choice(STYLES)) for _ in range(rng.randint(0, 2))] for _ in range(rng.randint(1, 3))] if rng.random() < 0.5 else []
         mode = "plain" if ls else rng.choice(["plain", "noloop", "if", "for"])
-        if ss or ls:
-            shapes.append((ss, ls, mode))
-    srcs = [injection_script(a, b, names, mode) for a, b, mode in shapes]
+        if ss or ls or any(fs):
+            shapes.append((ss, ls, mode, fs))
+    srcs = [injection_script(a, b, names, mode, fun_sites=f) for a, b, mode, f in shapes]
     tr = fw.transpile_many(srcs)
     nid = {n: i for i, n in enumerate(names)}
-    mcases = [[2, [[nid[n], CODE[s]] for n, s in a], [[nid[n], CODE[s]] for n, s in b]] for a, b, _ in shapes]
+    # the emitter registers the sites before the main loop, then the ones inside it, then the function bodies in definition order
+    mcases = [[2, [[nid[n], CODE[s]] for n, s in a], [[nid[n], CODE[s]] for n, s in b + [x for fn in f for x in fn]]] for a, b, _, f in shapes]
     model = ctx.model(mcases) if ctx.exe else [None] * len(shapes)
-    for (a, b, mode), src, t, m in zip(shapes, srcs, tr, model):
+    for (a, b, mode, f), src, t, m in zip(shapes, srcs, tr, model):
+        place = ("setup " if a else "") + ("main-loop " if b else "") + ("function" if any(f) else "")
+        tally(stats, "injection_call_site_places", place.strip() or "none")
         if not t["ok"]:
-            if not b:
-                ctx.fail("transpiler rejected a script with lcd.animate before the main loop", {"script": src}, "C++", t, key="dev-transpile")
+            ctx.fail("transpiler rejected a script with lcd.animate call sites", {"script": src}, "C++", t, key="dev-transpile")
             continue
         cpp = t["cpp"]
         loop_txt = cpp[cpp.find("void loop()"):]
         ticks = [[nid[n], int(k), CODE[st]] for (st, n, k) in TICK_RE.findall(loop_txt)]
         decl = sorted([nid[n], int(k)] for (n, k) in VAR_RE.findall(cpp))
-        if not b:
-            # inside the guard: the property itself - every animation is ticked exactly once per pass
-            want = sorted([nid[n], CODE[s]] for n, s in a)
-            got = sorted([t_[0], t_[2]] for t_ in ticks)
-            if want != got:
-                ctx.fail("loop() does not tick every animation started before the main loop exactly once", {"script": src}, want, got, key="dev-tick-injected")
-            if re.search(r"\bdelay(?:Microseconds)?\s*\(", loop_txt):
-                ctx.fail("loop() of a script that never sleeps contains a delay call", {"script": src}, "no delay", "delay(...) in loop()", key="dev-delay")
+        # the property itself - every animation, wherever its call site is, is ticked exactly once per pass
+        probs = injection_problems(cpp)
+        for what, exp, obs in probs[:1]:
+            ctx.fail(what, {"script": src}, exp, obs, key="dev-tick-injected")
+        want = sorted([nid[n], CODE[s]] for n, s in a + b + [x for fn in f for x in fn])
+        got = sorted([t_[0], t_[2]] for t_ in ticks)
+        if want != got and not probs:
+            ctx.fail("loop() does not tick every animation of the script exactly once", {"script": src}, want, got, key="dev-tick-injected")
         if m is not None:
             if m[0] != 0 or [list(x) for x in m[1]] != ticks:
                 ctx.disagree("tick injection: emitted tick calls vs emission model", {"script": src}, m, ticks)
@@ -1229,27 +1297,40 @@ def t_render(body, ind, out, ctr):
                     out.append(ind + "    k = k + 1")
 
 
-def tree_script(setup, loop, names, noloop=False):
+def tree_script(setup, loop, names, noloop=False, funs=()):
+    """funs: statement trees of function bodies; fn<i> is defined before the main loop (after the setup statements) and
+    called from setup (i % 3 == 0), from the main loop (i % 3 == 1) or never (i % 3 == 2: the definition is emitted
+    all the same and its call sites are registered)"""
     L = ["from Reduino import target", "from Reduino.Displays import LCD", 'target("/dev/ttyUSB0")']
     for n in names:
         L.append(f"{n} = LCD(rs=12, en=11, d4=5, d5=4, d6=3, d7=2, cols=8, rows=2)")
     L.append("k = 0")
     ctr = [0, 0]
     t_render(setup, "", L, ctr)
+    for i, body in enumerate(funs):
+        L.append(f"def fn{i}():")
+        L.append("    k = 0")
+        t_render(body, "    ", L, ctr)
+        if i % 3 == 0:
+            L.append(f"fn{i}()")
     if noloop:
         return "\n".join(L) + "\n"
     L.append("while True:")
     t_render(loop if loop else [["other"]], "    ", L, ctr)
+    for i in range(len(funs)):
+        if i % 3 == 1:
+            L.append(f"    fn{i}()")
     return "\n".join(L) + "\n"
 
 
 def gen_tree_cases(ctx):
-    """-> [(setup_tree, loop_tree, tag)].  Systematic part: a display `st` whose ONLY call site sits at the end of every
-    path of body kinds of length 1 and 2 over {if, elif, else, while, for, try body, first handler, second handler},
-    with the rest of the script rotating over: nothing else animates / the main display `ma` animates at top level /
-    `ma` animates in the sibling bodies of every block on the path.  Then paths of length 3 (seeded sample), two
-    call sites of one display in different handlers, seeded random trees, and trees whose main loop holds nested call
-    sites (outside the guard: correspondence with the model only)."""
+    """-> [(setup_tree, loop_tree, function_trees, tag)].  Systematic part: a display `st` whose ONLY call site sits at
+    the end of every path of body kinds of length 1 and 2 over {if, elif, else, while, for, try body, first handler,
+    second handler}, with the rest of the script rotating over: nothing else animates / the main display `ma` animates
+    at top level / `ma` animates in the sibling bodies of every block on the path; the path itself is placed before the
+    main loop, inside the main loop, or inside a function body (rotating).  Then paths of length 3 (seeded sample), two
+    call sites of one display in different handlers, seeded random trees (before the loop only / before and inside /
+    with one to three functions / without a main loop)."""
     rng = ctx.rng
     thorough = ctx.tier == "thorough"
     cases = []
@@ -1266,23 +1347,32 @@ def gen_tree_cases(ctx):
             if variant == 2:
                 return [t_anim("ma", STYLES[(j + sib[0]) % 4])]
             return [["other"]]
-        setup = t_nest(list(path), [t_anim("st", style)] + ([["other"]] if j % 2 else []), filler)
-        if variant == 1:
-            setup = [t_anim("ma", STYLES[(j + 1) % 4])] + setup
-        cases.append((setup, [], "path:" + ">".join(path)))
+        tree = t_nest(list(path), [t_anim("st", style)] + ([["other"]] if j % 2 else []), filler)
+        top = [t_anim("ma", STYLES[(j + 1) % 4])] if variant == 1 else []
+        place = (j // 3) % 3
+        if place == 0:
+            cases.append((top + tree, [], [], "path:" + ">".join(path)))
+        elif place == 1:
+            cases.append((top, tree, [], "path-in-main-loop:" + ">".join(path)))
+        else:
+            cases.append((top, [], [tree] if j % 2 else [[["other"]], tree], "path-in-function:" + ">".join(path)))
     # one display, call sites in two different handlers / handler and try body / handler and top level
     for j, (pa, pb) in enumerate([("exc0", "exc1"), ("try", "exc0"), ("exc1", None), ("exc0", "else"), ("for", "exc1")]):
         f = lambda: [["other"]]
         setup = t_nest([pa], [t_anim("st", STYLES[j % 4])], f)
         setup += [t_anim("st", STYLES[(j + 1) % 4])] if pb is None else t_nest([pb], [t_anim("st", STYLES[(j + 2) % 4])], f)
-        cases.append((setup, [], "two-sites"))
+        cases.append((setup, [], [], "two-sites"))
+        cases.append(([], setup, [], "two-sites:main-loop"))
     names = ["ma", "st", "zz"]
     for j in range(60 if thorough else 20):
-        cases.append((t_random(rng, names, 3), [], "random"))
-    for j in range(16 if thorough else 6):
-        cases.append((t_random(rng, names, 2), t_random(rng, names, 2), "random:loop-sites"))
+        cases.append((t_random(rng, names, 3), [], [], "random"))
+    for j in range(24 if thorough else 10):
+        cases.append((t_random(rng, names, 2), t_random(rng, names, 2), [], "random:loop-sites"))
+    for j in range(24 if thorough else 10):
+        cases.append((t_random(rng, names, 2), t_random(rng, names, 2) if j % 2 else [],
+                      [t_random(rng, names, 2) for _ in range(1 + j % 3)], "random:function-sites"))
     for j in range(6 if thorough else 2):
-        cases.append((t_random(rng, names, 2), [], "random:noloop"))
+        cases.append((t_random(rng, names, 2), [], [t_random(rng, names, 1)] if j % 2 else [], "random:noloop"))
     return cases
 
 
@@ -1290,43 +1380,51 @@ def run_injection_trees(ctx, stats):
     names = ["ma", "st", "zz"]
     nid = {n: i for i, n in enumerate(names)}
     cases = gen_tree_cases(ctx)
-    srcs = [tree_script(a, b, names, noloop=tag.endswith("noloop")) for a, b, tag in cases]
+    srcs = [tree_script(a, b, names, noloop=tag.endswith("noloop"), funs=f) for a, b, f, tag in cases]
     tr = fw.transpile_many(srcs)
-    model = ctx.model([[4, t_wire(a, nid), t_wire(b, nid)] for a, b, _ in cases]) if ctx.exe else [None] * len(cases)
+    model = ctx.model([[5, t_wire(a, nid), t_wire(b, nid), [t_wire(x, nid) for x in f]] for a, b, f, _ in cases]) if ctx.exe else [None] * len(cases)
     compile_jobs = []
-    for (a, b, tag), src, t, m in zip(cases, srcs, tr, model):
-        in_guard = not t_sites(b)
+    compiled_tags = {}
+    for (a, b, f, tag), src, t, m in zip(cases, srcs, tr, model):
         stats["tree_shapes"] = stats.get("tree_shapes", 0) + 1
-        tally(stats, "tree_tags", tag.split(":")[0] + (":" + tag.split(":")[1] if tag.startswith("random:") else ""))
-        for name, path in t_positions(a):
-            tally(stats, "tree_call_site_depth", len(path))
-            tally(stats, "tree_call_site_innermost_body", path[-1] if path else "top-level")
+        tally(stats, "tree_tags", tag.split(":")[0] + (":" + tag.split(":")[1] if tag.startswith(("random:", "two-sites:")) else ""))
+        placed = [("before-main-loop", a), ("main-loop", b)] + [("function", x) for x in f]
+        for where, body in placed:
+            for name, path in t_positions(body):
+                tally(stats, "tree_call_site_place", where)
+                tally(stats, "tree_call_site_depth", len(path))
+                tally(stats, "tree_call_site_innermost_body", path[-1] if path else "top-level")
         by_name = {}
-        for name, path in t_positions(a):
-            by_name.setdefault(name, []).append(path)
+        for _, body in placed:
+            for name, path in t_positions(body):
+                by_name.setdefault(name, []).append(path)
         for name, ps in by_name.items():
             if all(p and "except" in p for p in ps):
                 stats["tree_displays_animated_only_inside_handlers"] = stats.get("tree_displays_animated_only_inside_handlers", 0) + 1
+        for name in names:
+            ina, inb, inf = any(n == name for n, _ in t_sites(a)), any(n == name for n, _ in t_sites(b)), any(n == name for x in f for n, _ in t_sites(x))
+            if (inb or inf) and not ina:
+                tally(stats, "tree_displays_animated_only", ("in main loop" if inb else "") + ("+" if inb and inf else "") + ("in functions" if inf else ""))
         if not t["ok"]:
-            if in_guard:
-                ctx.fail("transpiler rejected a script with lcd.animate before the main loop", {"script": src}, "C++", t, key="dev-transpile")
+            ctx.fail("transpiler rejected a script with lcd.animate call sites", {"script": src}, "C++", t, key="dev-transpile")
             continue
         cpp = t["cpp"]
         loop_txt = cpp[cpp.find("void loop()"):]
         ticks = [[nid[n], int(k), CODE[st]] for (st, n, k) in TICK_RE.findall(loop_txt)]
         decl = sorted([nid[n], int(k)] for (n, k) in VAR_RE.findall(cpp))
-        if in_guard:
-            # the property itself, on the emitted text
-            probs = injection_problems(cpp)
-            for what, exp, obs in probs[:1]:
-                ctx.fail(what, {"script": src}, exp, obs, key="dev-tick-injected")
-            want = sorted([nid[n], CODE[s_]] for n, s_ in t_sites(a))
-            got = sorted([t_[0], t_[2]] for t_ in ticks)
-            if want != got and not probs:
-                ctx.fail("loop() does not tick every animation started before the main loop exactly once (call sites nested in blocks)",
-                         {"script": src}, want, got, key="dev-tick-injected")
-            if len(compile_jobs) < (12 if ctx.tier == "thorough" else 4) and tag.startswith("random") and "except Exception" not in src and "except ValueError" not in src:
-                compile_jobs.append((src, cpp))
+        # the property itself, on the emitted text
+        probs = injection_problems(cpp)
+        for what, exp, obs in probs[:1]:
+            ctx.fail(what, {"script": src}, exp, obs, key="dev-tick-injected")
+        want = sorted([nid[n], CODE[s_]] for body in [a, b] + list(f) for n, s_ in t_sites(body))
+        got = sorted([t_[0], t_[2]] for t_ in ticks)
+        if want != got and not probs:
+            ctx.fail("loop() does not tick every animation of the script exactly once (call sites nested in blocks, in the main loop, in functions)",
+                     {"script": src}, want, got, key="dev-tick-injected")
+        kind = tag.split(":")[1] if tag.startswith("random:") else "before-loop" if tag == "random" else None
+        if kind and compiled_tags.get(kind, 0) < (4 if ctx.tier == "thorough" else 2) and "except Exception" not in src and "except ValueError" not in src:
+            compiled_tags[kind] = compiled_tags.get(kind, 0) + 1
+            compile_jobs.append((src, cpp))
         if m is not None:
             if m[0] != 0:
                 ctx.disagree("tick injection (trees): model could not decode the case (harness bug)", {"script": src}, m, None)
@@ -1380,25 +1478,73 @@ def run_schedule_spec(ctx, stats, hcases, dindex):
     stats["schedules_with_a_late_pass_followed_by_an_early_one"] = late_early
 
 
-def replay_finding(f):
-    """-> True iff the listed witness still fails on the real code"""
+def local_findings(ctx):
+    """known_findings.d/C18.json (this package's own file) takes precedence over the merged known_findings.json, which
+    ./check manifest assembles from it"""
+    import json
+    items = {f["id"]: f for f in ctx.findings}
+    p = C.VERIF / "known_findings.d" / "C18.json"
+    if p.exists():
+        for f in json.loads(p.read_text()):
+            items[f["id"]] = f
+    return list(items.values())
+
+
+def witness_failure(f):
+    """Run the witness script of a listed entry through the property's oracle: the emitted text (every started state
+    variable declared and ticked once at the top level of loop()), the compiler, and the trace (speed_ms=0, loop=True:
+    from the phase in which the animation starts on, every pass must draw a frame on its display).
+    -> None if the property holds on the witness, else (what, expected, observed)"""
     w = f["witness"]
     t = fw.transpile_many([w["script"]])[0]
     if not t["ok"]:
-        return False
+        return ("the transpiler rejects the script", "C++", t)
+    probs = injection_problems(t["cpp"])
     o = fw.run_sketches([{"cpp": t["cpp"], "input": w["input"], "loops": w["loops"], "env": {"REDU_LCD_DUMP": "1"}}])[0]
-    if not o["compiled"]:
-        return w.get("expect") == "does-not-compile"
-    if w.get("expect") == "does-not-compile":
-        return False
+    if not o["compiled"] or o["rc"] != 0:
+        return ("the emitted sketch does not compile / crashed" + (": " + probs[0][0] if probs else ""), "a sketch that compiles and runs",
+                {"log": o["compile_log"][-600:], "rc": o["rc"], "stderr": o["stderr"][-300:]})
+    if probs:
+        return probs[0]
     _, setup_ev, loops = fw.split_phases(o["events"])
-    passes = [parse_phase(p) for p in loops]
-    started = [k for k, p in enumerate(passes) if p["lw"].get(0)]
+    phases = [parse_phase(setup_ev)] + [parse_phase(p) for p in loops]
+    started = [k for k, p in enumerate(phases) if p["lw"].get(0)]
     if not started:
-        return False
-    # the animation was started in pass started[0] with speed 0, loop=True: every later pass must show a frame
-    later = passes[started[0] + 1:]
-    return bool(later) and not any(p["lw"].get(0) for p in later)
+        return ("the animation never started", "a first frame", "no cell write on the display")
+    later = phases[max(started[0], 0) + 1:]
+    idle = [k for k, p in enumerate(later) if not p["lw"].get(0)]
+    if not later or idle:
+        return ("the animation is started but not advanced in every later pass (speed_ms=0, loop=True)", "a frame in every pass after the start",
+                {"passes_without_a_frame_after_the_start": idle, "rows": [p["ld"].get(0) for p in later[:4]]})
+    return None
+
+
+def replay_listed(ctx):
+    """kind=finding: witness still fails -> KNOWN-FINDING line, silent otherwise.  kind=fixed (repaired in Reduino):
+    suppresses nothing - its witness lies inside the guard, goes through the same oracle first on every run, and a
+    witness that fails again is a VIOLATION whose replay is that witness.  -> {id: outcome}"""
+    outcome = {}
+    for f in local_findings(ctx):
+        fixed = f.get("kind") == "fixed"
+        try:
+            bad = witness_failure(f)
+        except Exception as e:  # noqa
+            ctx.notes.append(f"replay of {f['id']} failed to run: {e}")
+            if fixed:
+                ctx.disagree(f"witness of the fixed entry {f['id']} could not be run: {e}", {"script": f["witness"].get("script")}, None, str(e))
+            continue
+        outcome[f["id"]] = "holds" if bad is None else "FAILS" + (" AGAIN" if fixed else "")
+        if bad is None:
+            continue
+        if fixed:
+            w = f["witness"]
+            ctx.fail(f"the repaired defect {f['id']} is back ({f.get('fixed', 'fixed')}): {bad[0]}",
+                     {"script": w["script"], "input": w.get("input"), "loops": w.get("loops"), "nows": [10 * (k + 1) for k in range(w.get("loops", 5))],
+                      "fixed_entry": f["id"], "commit": f.get("commit")},
+                     bad[1], bad[2], key="fixed:" + f["id"])
+        else:
+            ctx.known(f"{f['id']}: {f['what']}")
+    return outcome
 
 
 class _Collector:
@@ -1421,6 +1567,10 @@ def replay(data):
     col = _Collector()
     if isinstance(case, dict) and "lcd" in case:
         d, nows = case["lcd"], case["nows"]
+        in_loop = d.get("wrap") in LOOP_WRAPS and d["anims"]
+        if in_loop:
+            # the call sites run in the first pass of the main loop; the recorded tick history starts with the second
+            nows = [case.get("first_pass_at", min(1, nows[0]) if nows else 1)] + list(nows)
         rts = case.get("runtime_speed") or False
         src = device_script([d], runtime_speed=rts, pre_lines=BUSY_PRE if case.get("busy") else None,
                             loop_lines=BUSY_LOOP if case.get("busy") else None)
@@ -1444,6 +1594,7 @@ def replay(data):
             if ph["delays"]:
                 col.fail("delay()/delayMicroseconds() called although the script never sleeps", case, "no D/DU event", ph["delays"][:3], key="dev-delay")
                 break
+        _, setup, passes = effective_phases(d, nows, setup, passes)
         device_oracle(col, case, setup, passes, 0, {})
     elif isinstance(case, dict) and "anims" in case and "nows" in case:
         r = C.run_impl("c18_impl.py", {"cases": [case]}, timeout=600)[0]
@@ -1484,20 +1635,15 @@ def replay(data):
 
 def run(ctx: C.Ctx):
     stats = {}
-    # the text-level injection checks first: their scripts are the smallest, so the first replay of a class is minimal
+    # the witnesses of the listed entries first (a fixed entry suppresses nothing: its witness failing again is a VIOLATION
+    # whose replay is that witness)
+    stats["listed_witnesses_replayed_through_the_oracle"] = replay_listed(ctx)
+    # then the text-level injection checks: their scripts are the smallest, so the first replay of a class is minimal
     run_injection(ctx, stats)
     run_injection_trees(ctx, stats)
     hcases, h_nt = run_host(ctx, stats)
     dindex, d_nt = run_device(ctx, stats)
     run_schedule_spec(ctx, stats, hcases, dindex)
-    for f in ctx.findings:
-        if f.get("kind") == "fixed":
-            continue
-        try:
-            if replay_finding(f):
-                ctx.known(f"{f['id']}: {f['what']}")
-        except Exception as e:  # noqa
-            ctx.notes.append(f"replay of {f['id']} failed to run: {e}")
     ctx.coverage.update({
         "evaluations": len(hcases) + len(dindex) + stats.get("injection_shapes", 0) + stats.get("tree_shapes", 0),
         "distinct_nontrivial": h_nt + d_nt,
@@ -1509,19 +1655,20 @@ def run(ctx: C.Ctx):
                 "schedule 'burst' = late passes (2..5 periods) each followed by several quick passes (0, 1, period/4 ... apart) and then one exactly on time; 'mixed' draws gaps from {0,1,p-1,p,p+1,2p,p/2,3p+1,7p+3}; "
                 "tick histories are long enough to contain more than len+2*cols+2 due ticks (non-looping). The per-animation relations (rate limit over all pairs of steps, no due pass skipped, no frame after a skipped due pass, "
                 "termination bound, one frame per step) are evaluated for every animation that has its row to itself (device) / for every animation (host). "
-                "Call-site placement: every third display of a grid sketch and every display of the multi sketches has its animate calls inside a block that runs once (if / else / elif / for / while / try / if>for>try), "
+                "Call-site placement: every third display of a grid sketch and every display of the multi sketches has its animate calls inside a block that runs once (if / else / elif / for / while / try / if>for>try), inside a function called once from setup (def), or - starting in the first pass, after that pass's idle tick calls, the first pass then playing the part of setup() for the display model and the oracle - inside `while True:` under a run-once guard (mainloop), nested there in for>try (mainloop-nested), or inside a function the main loop calls once (def-in-loop), "
                 "two displays per multi sketch have call sites inside (nested) except handlers (one of them only there: it never starts, its rows must stay blank, its tick calls must exist); on every transpiled sketch the "
-                "emitted text is checked: each state variable started in setup() is declared and has exactly one tick call of its style at the top level of loop(). "
+                "emitted text is checked: each state variable that a start call names - in setup(), in loop() or in a user function - is declared and has exactly one tick call of its style at the top level of loop(). "
                 "Tick injection trees: a display whose only call site ends every path of length 1 and 2 (and a seeded sample of length 3; thorough: all 512) over the body kinds {if, elif, else, while, for, try body, first handler, second handler}, "
                 "the rest of the script rotating over (nothing else animates / main display at top level / main display in every sibling body), two call sites of one display in different handlers, seeded random trees of depth <= 3, "
-                "trees with nested call sites inside the main loop (correspondence only) and scripts without a main loop; handler headers rotate over `except:`, `except ValueError:`, `except Exception as e:`, `except Exception:`. "
+                "the path placed before the main loop, inside it, or inside a function body (rotating; functions are called from setup, from the main loop, or never), trees with call sites before and inside the main loop, trees with one to three function bodies, and scripts without a main loop - all of them inside the guard (oracle on the emitted text + correspondence); handler headers rotate over `except:`, `except ValueError:`, `except Exception as e:`, `except Exception:`. "
                 "Host, several displays: one in nine grid cases and half of the multi cases run next to a second display created in the same process (same geometry/style/row/registry key in the grid), whose animations start before and after the main one's and which is ticked between the main ticks; "
                 "any change of one display across an operation on the other is a failure. "
                 "Non-trivial = at least one frame was drawn by a tick; distinct by (geometry, animations, schedule prefix).",
         "samples": [hcases[0], hcases[len(hcases) // 2], dindex[0][0] if dindex else None],
         "distribution": stats,
         "guard": "host: cols, rows >= 1, tick times positive and non-decreasing; device: additionally 0 <= row < rows, text without control characters, quotes or backslashes (non-ASCII text = its UTF-8 bytes; speed_ms may be negative: cast to unsigned long), "
-                 "1 <= cols <= 40, lcd.animate calls placed before `while True:` at any block depth (outside: F-C18-animate-in-loop-never-ticked) and not inside a def (F-C18-animate-in-function-undeclared); "
+                 "1 <= cols <= 40; the place of the lcd.animate call sites is not restricted any more (before the main loop, inside it, inside functions, at any block depth: the two findings that "
+                 "excluded the main loop and defs are repaired, kind=fixed, and suppress nothing); a call site inside the main loop is generated under a run-once guard (an unguarded one restarts its animation in every pass - by design of animate); "
                  "sketches that are compiled use bare `except:` handlers only (a named exception class becomes catch (<Class> &), undeclared on any core: C06)",
         "unmodelled": ["device: row outside the display (library clamps the row), millis() wrap-around, speed_ms >= 2^W (wraps in the unsigned cast)",
                        "device: DDRAM addressing beyond 40 columns / 4-row interleaving (shown unreachable by C18_frame_geometry_device)",
